@@ -102,7 +102,19 @@ def classify_line(line: str, n_extra: int):
     if len(toks) < need:
         return ("ambig", "fewer fields than requested columns")
     if ambig:
-        return ("ambig", ambig)
+        # numeric to Python, not to the strict grammar (`2_000.0`, `+7` as an id, non-ASCII digits): a reader may reject
+        # the line or accept it - but if it accepts, the only defensible values are the ones Python reads
+        try:
+            fl = [repr(float(t)) for t in toks[2:6]] + [repr(float(t)) for t in toks[7:need]]
+            if any(v in ("nan", "inf", "-inf") for v in fl) or not all(RE_FLOAT.match(t) for t in toks[need:]):
+                return ("ambig", ambig)
+            row = {"id": int(toks[0]), "type": int(toks[1]), "x": fl[0], "y": fl[1], "z": fl[2], "r": fl[3],
+                   "pid": int(toks[6]), "extra": fl[4:], "trailing": len(toks) - need}
+            if row["id"] < 0 or row["type"] < 0:
+                return ("ambig", ambig)
+            return ("ambig", ambig, row)
+        except ValueError:
+            return ("ambig", ambig)
     trailing = toks[need:]
     for tok in trailing:
         if not RE_FLOAT.match(tok):
@@ -137,6 +149,7 @@ def analyse(data: bytes | str, encoding: str = "utf-8", n_extra: int = 0) -> dic
     lines, lone_cr = split_lines(text)
     rows, comments = [], []
     bad, ambig = None, None
+    conditional = True  # every ambiguous line still has exactly one defensible reading
     for ln, line in enumerate(lines):
         c = classify_line(line, n_extra)
         if c[0] == "data":
@@ -147,18 +160,29 @@ def analyse(data: bytes | str, encoding: str = "utf-8", n_extra: int = 0) -> dic
             bad = bad or f"line {ln + 1}: {c[1]}"
         elif c[0] == "ambig":
             ambig = ambig or f"line {ln + 1}: {c[1]}"
+            if len(c) == 3:
+                rows.append(c[2])
+            else:
+                conditional = False
     if bad:
         return {"verdict": MUST_REJECT, "why": bad}
     if lone_cr:
-        ambig = ambig or "lone CR"
-    if "﻿" in text:
-        ambig = ambig or "BOM"
+        ambig, conditional = ambig or "lone CR", False
+    if "\ufeff" in text:
+        ambig, conditional = ambig or "BOM", False
     if not rows:
-        ambig = ambig or "no data rows"
-    if ambig:
-        return {"verdict": EITHER, "why": ambig}
+        ambig, conditional = ambig or "no data rows", False
     roots = [i for i, r in enumerate(rows) if r["pid"] == -1]
     ids = [r["id"] for r in rows]
+    if ambig:
+        out = {"verdict": EITHER, "why": ambig}
+        if conditional:
+            # if the reader accepts the text, it must have read it like this
+            out["if_accepted"] = {"rows": rows, "comments": comments, "n_roots": len(roots),
+                                  "first_root": roots[0] if roots else None,
+                                  "distinct_ids": len(set(ids)) == len(ids),
+                                  "any_trailing": any(r["trailing"] for r in rows)}
+        return out
     return {
         "verdict": MUST_ACCEPT,
         "rows": rows,
